@@ -643,6 +643,51 @@ def _execute(plan, out, root, root_b, scratch):
                              plan["schema_files"], False, base)
             probe("chdir-to-twin-tree")
             os.chdir(cwd)
+        # ---- the current directory no longer exists --------------------------
+        # (the process's working directory was removed after start-up: names
+        # that do not depend on it -- absolute path, file: URL, a file object
+        # opened by an absolute name -- reach the same resource as before)
+        gone = os.path.join(scratch, "gone-cwd")
+        os.mkdir(gone)
+        os.chdir(gone)
+        os.rmdir(gone)
+        try:
+            for entry in ("abs-path", "url", "file-abs"):
+                w.begin_op("config:cwd-removed:%s" % entry)
+
+                def run5():
+                    cfg, _h = _enter(
+                        entry, cfull,
+                        lambda u: ZConfig.loadConfig(schema, u),
+                        lambda f: ZConfig.loadConfigFile(schema, f))
+                    return {"ok": True, "got": {
+                        "k": list(cfg.k),
+                        "s": [[x.getSectionName(), list(x.k)]
+                              for x in cfg.s]}}
+                o = ops.guarded(run5)
+                w.end_op("ok" if o["ok"] else o["cls"])
+                out["evaluations"] += 1
+                if not o["ok"]:
+                    violation("load-failed", "config-cwd-removed",
+                              "with the current directory removed, "
+                              "configuration by %s raised %s"
+                              % (entry, ops.brief(o)))
+                elif o["got"] != want:
+                    violation("wrong-result", "config-cwd-removed",
+                              "with the current directory removed, "
+                              "configuration by %s gives %r, expected %r"
+                              % (entry, o["got"], want))
+            w.begin_op("schema:cwd-removed:abs-path")
+            so = ops.schema_outcome(lambda: ZConfig.loadSchema(sfull))
+            w.end_op("ok" if so["ok"] else so["cls"])
+            out["evaluations"] += 1
+            if not so["ok"]:
+                violation("load-failed", "schema-cwd-removed",
+                          "with the current directory removed, schema by "
+                          "absolute path raised %s" % ops.brief(so))
+        finally:
+            os.chdir(cwd)
+        probe("cwd-removed")
         # ---- the files are rewritten between two loads through ONE loader ---
         # (path, URL and file-object entries of one ConfigLoader / one
         # SchemaLoader: each load reaches the resource as it is NOW)
